@@ -196,6 +196,7 @@ def brute_width(edges):
 # ----------------------------------------------------------------------------- descriptions
 NAMES = ["a", "b", "c", "d", "e", "s", "t", "o", "v1", "v2", "n10", "x_y", "7", "-3", "1.5", "u#", "é", "ß2", "S", "node", "A", "0",
          "٣", "k", "src"]
+NAMES_DIGITS = ["1", "11", "12", "2", "21", "112", "121", "3", "13", "31", "111", "22"]
 WS1 = [" ", " ", " ", "\t", "  ", " \t", "\x0c", "\x1c", "\x1f", "\x0b", "\x85", "\xa0", "\u2003", "\u3000", "\u2028"]   # never \n or \r inside a line
 LEAD = ["", "", "", " ", "\t", "  ", "\x0c ", "\u2003"]
 TRAIL = ["\n", "\n", "\n", " \n", "\t\n", "  \n", "\x0c\n"]
@@ -215,8 +216,10 @@ def gen_weight(rng):
 def gen_graph(rng):
     """Random digraph (self-loops, cycles, several components) with at least one source and one sink."""
     k = rng.randint(1, 6)
-    nodes = rng.sample(NAMES, k)
-    p = rng.choice([0.2, 0.35, 0.5])
+    # one block in five draws its names from digit strings whose concatenations coincide ("1"+"12" = "11"+"2"):
+    # distinct '#S' lines must stay distinct constraints however the implementation keys them
+    nodes = rng.sample(NAMES_DIGITS if rng.random() < 0.2 else NAMES, k)
+    p = rng.choice([0.2, 0.35, 0.5]) if nodes[0] not in NAMES_DIGITS else 0.6
     edges = [(u, v) for u in nodes for v in nodes if rng.random() < (p if u != v else p / 2)]
     if not edges:
         edges = [(nodes[0], nodes[-1])] if k > 1 else [(nodes[0], "zz")]
@@ -238,7 +241,8 @@ def rand_walks(rng, edges):
     for u, v in edges:
         succ.setdefault(u, []).append(v)
     walks = []
-    for _ in range(rng.choice([0, 0, 1, 2, 3])):
+    dig = edges[0][0] in NAMES_DIGITS
+    for _ in range(rng.choice([0, 0, 1, 2, 3]) if not dig else rng.choice([3, 4, 5])):
         u = rng.choice(edges)[0]; w = [u]
         for _ in range(rng.choice([0, 1, 1, 2, 3])):
             if w[-1] not in succ:
